@@ -6,6 +6,7 @@ oracle for malformed input; round-trip relations for conversions.
 """
 import itertools
 import math
+import random
 
 from vmon.core.obs import observe, is_plain_number, close
 from vmon.refs import units as U
@@ -369,9 +370,63 @@ def parse_own(text):
     return out
 
 
+def check_threads(ctx):
+    """The same evaluations from four threads at once (short switch
+    interval): every result equals the one obtained alone.  Evaluation keeps
+    no state between calls, so the schedule must not matter."""
+    import sys
+    import threading
+    from pgradd.Units import eval_qty
+    texts = ['12 in', 'cm^3/(mol s)', '2.5 kJ/(mol K)', 'kcal/mol', 'mm Hg',
+             'W/(m K)', 'daN m^-2', '(kg m^2/s^2)^0.5', 'uL/min', '4 ft lbf',
+             'eV/molecule', 'm/m', 'hp h', '1/(Pa s)', 'mol/(L h)', 'kW h']
+    texts = [t for t in texts if 'ok' in observe(eval_qty, t)]
+    alone = {}
+    for t in texts:
+        v, e = observed(observe(eval_qty, t)['ok'])
+        alone[t] = (repr(v), repr(e))
+    bad = []
+    n_done = [0]
+    lock = threading.Lock()
+
+    def work(k):
+        r = random.Random('c10thr:%s:%s' % (ctx.seed, k))
+        for _ in range(1500):
+            t = r.choice(texts)
+            try:
+                v, e = observed(eval_qty(t))
+                got = (repr(v), repr(e))
+            except BaseException as exc:          # noqa
+                got = ('raised', type(exc).__name__)
+            if got != alone[t]:
+                with lock:
+                    if len(bad) < 5:
+                        bad.append([t, got, alone[t]])
+            n_done[0] += 1
+    old = sys.getswitchinterval()
+    sys.setswitchinterval(1e-5)
+    try:
+        ths = [threading.Thread(target=work, args=(k,)) for k in range(4)]
+        for th in ths:
+            th.start()
+        for th in ths:
+            th.join(300)
+    finally:
+        sys.setswitchinterval(old)
+    ctx.evals(n_done[0])
+    if bad:
+        ctx.violation('evaluation from several threads at once differs from '
+                      'evaluation alone', {'what': 'thread stress'},
+                      {'examples': bad})
+        return
+    ctx.count('evaluations_under_thread_stress', n_done[0])
+
+
 # ---------------------------------------------------------------- workload
 def run_shard(ctx):
     i = 0
+    if ctx.shard % 4 == 1:
+        check_threads(ctx)
     # 1. exhaustive lookups
     names = list(U.UNITS)
     prefixes = [''] + list(U.PREFIXES)
